@@ -69,7 +69,8 @@ static const VecOp VECOPS[] = {
 static const int NVECOPS = sizeof(VECOPS) / sizeof(VECOPS[0]);
 
 enum Alias { AL_NONE = 0, AL_RES_A = 1, AL_RES_B = 2, AL_RES_A_B = 3, AL_A_B = 4,
-             AL_RES_A_COMPACT = 5 };  // res == a pointer with a_sl >= res_sl + N (compacting a padded vector inside its own buffer:
+             AL_RES_A_COMPACT = 5,
+             AL_RES_A_VIEW = 6 };   // res == a pointer, different strides, one side a one-limb view (only limb 0 coincides)  // res == a pointer with a_sl >= res_sl + N (compacting a padded vector inside its own buffer:
                                       // limb 0 is in place, the other limbs are disjoint and are never overwritten before they are read)
 
 struct VecShape {
@@ -152,6 +153,7 @@ inline bool alias_ok(const VecOp& op, const VecShape& s) {
     case AL_RES_A_B: return op.nin >= 2 && s.rsl == s.asl && s.rsl == s.bsl;
     case AL_A_B: return op.nin >= 2 && s.asl == s.bsl;
     case AL_RES_A_COMPACT: return op.nin >= 1 && !op.a_big && s.asl >= s.rsl + s.N;
+    case AL_RES_A_VIEW: return op.nin >= 1 && s.rsl != s.asl && (s.rs <= 1 || s.as <= 1) && s.rs + s.as >= 1;
   }
   return false;
 }
@@ -185,7 +187,7 @@ inline ApiCase gen_vecop(const MODULE* mod, const VecOp& op, const VecShape& s0,
     if (pos < N && limb % 4 == 2) v = 0; return v; };
   if (ia >= 0) for (size_t e = 0; e < ae; ++e) put_i64(c.bufs[ia].init, e, a_val(e, s.asl));
   if (ib >= 0) for (size_t e = 0; e < be; ++e) put_i64(c.bufs[ib].init, e, b_is_a ? a_val(e, s.asl) : b_val(e, s.bsl));
-  if (s.alias == AL_RES_A || s.alias == AL_RES_A_B || s.alias == AL_RES_A_COMPACT) c.bufs[ia].alias_of = ir;
+  if (s.alias == AL_RES_A || s.alias == AL_RES_A_B || s.alias == AL_RES_A_COMPACT || s.alias == AL_RES_A_VIEW) c.bufs[ia].alias_of = ir;
   if (s.alias == AL_RES_B || s.alias == AL_RES_A_B) c.bufs[ib].alias_of = ir;
   if (s.alias == AL_A_B) c.bufs[ib].alias_of = ia;
   // model image
